@@ -59,7 +59,7 @@ def main():
             print("VIOLATION property=%s replay=%s" % (pid, replay))
             print("  what: %s [%s]" % (text, key))
     vlib.write_evidence(pid, tier, seed, result["coverage"], wall, nviol, result.get("assumptions", ()))
-    if result.get("vacuous"):
+    if result.get("vacuous") and not nviol:
         print("MODEL-FAILURE property=%s: vacuous run: %s" % (pid, "; ".join(result["vacuous"])))
         return 2
     cov = result["coverage"]
